@@ -114,6 +114,7 @@ ScalarOK(sk, v) ==
       [] sk = "date"    -> B3(v.t = "str" /\ IsDate(v.v))
       [] sk = "long"    -> B3(v.t = "int" /\ In64(v))
       [] sk = "regstr"  -> B3(v.t = "str")
+      [] sk = "regint"  -> B3(v.t = "int")
       [] OTHER          -> "U"               \* unregistered custom scalar: nothing is declared about its literals
 
 Required(a) == a.type[1] = "NN" /\ ~a.dflt
@@ -217,21 +218,23 @@ ConfigRules == {"null-when-disabled", "nul-when-disabled", "non-ascii-with-ascii
 OpDefs(doc) == {i \in 1..Len(doc.defs) : doc.defs[i].kind = "operation"}
 (* validation of one operation definition (5.2.2.1 lone anonymous operation; 5.3 - 5.6 on its selection set).  A missing root  *)
 (* type is not a validation error of the standard (it is an execution error) - it is reported as a targeting rule instead.    *)
-DefViol(s, cfg, doc, i) ==
+DefViolT(T, s, cfg, doc, i) ==
     LET d == doc.defs[i]
         R == RootName(s, d.optype)
     IN (IF ~d.named /\ Cardinality(OpDefs(doc)) > 1 THEN {"lone-anonymous-operation"} ELSE {})
        \cup (IF d.nvars > 0 THEN {"U:variables"} ELSE {})
        \cup (IF R = "" THEN {"no-root-type-for-operation"}
              ELSE IF d.sels = <<>> THEN {"empty-selection"}
-             ELSE SelSetViol(Types(s), cfg, R, d.sels))
-DocViol(s, cfg, op, doc) ==
+             ELSE SelSetViol(T, cfg, R, d.sels))
+(* T = the type table in force when the document was drawn (Types(s), or Types(s) with a re-registered custom scalar) *)
+DocViolT(T, s, cfg, op, doc) ==
     (IF \E i \in 1..Len(doc.defs) : doc.defs[i].kind # "operation" THEN {"U:fragment-spread"} ELSE {})
-    \cup UNION {DefViol(s, cfg, doc, i) : i \in OpDefs(doc)}
+    \cup UNION {DefViolT(T, s, cfg, doc, i) : i \in OpDefs(doc)}
     \cup (IF Len(doc.defs) # 1 \/ doc.defs[1].kind # "operation" THEN {"not-exactly-one-operation"}
           ELSE LET d == doc.defs[1]
                IN (IF d.optype # op.root THEN {"wrong-operation-type"} ELSE {})
                   \cup (IF ~(Len(d.sels) = 1 /\ d.sels[1].kind = "field" /\ d.sels[1].name = op.field) THEN {"not-exactly-the-field"} ELSE {}))
+DocViol(s, cfg, op, doc) == DocViolT(Types(s), s, cfg, op, doc)
 Definite(viol) == {r \in viol : r \notin {"U:argument-value", "U:fragment-spread", "U:variables"}}
 
 (* ------------------------------ operations, filters, counts ------------ *)
@@ -334,6 +337,22 @@ Mutants(s, o) ==
                {[name |-> "conflicting-leaf-types", rule |-> "fields-conflict",
                  doc |-> OpDoc(o.root, <<[c EXCEPT !.sels = <<InlineSel("A", <<FieldSel("v", <<>>, <<>>)>>),
                                                               InlineSel("B", <<FieldSel("v", <<>>, <<>>)>>)>>]>>)]})
+
+(* ------------------------------ histories on ONE schema object --------- *)
+(* A loaded schema object is used repeatedly while its configuration changes.  step = [a, cfg, has, root, field, kind]:            *)
+(*   a = "configure": the schema's generation config becomes cfg;   a = "register": custom scalar Reg is (re-)registered with a   *)
+(*   strategy of literal kind `kind` ("str" / "int");   a = "draw": cases are drawn for operation (root, field), with an explicit  *)
+(*   per-draw generation config cfg when has = TRUE.                                                                               *)
+(* Every document must obey the configuration and the registration in force AT ITS OWN DRAW - never an earlier one.               *)
+GCfg(n, x, a) == [allowNull |-> n, allowX00 |-> x, ascii |-> a]
+DefaultCfg == GCfg(TRUE, TRUE, FALSE)            \* GenerationConfig() of a freshly loaded schema
+DefaultReg == "str"                              \* how the harness registers Reg before anything else happens
+LastBefore(h, k, a) == LET js == {j \in 1..(k - 1) : h[j].a = a} IN IF js = {} THEN 0 ELSE CHOOSE j \in js : \A j2 \in js : j2 <= j
+ConfiguredAt(h, k) == IF LastBefore(h, k, "configure") = 0 THEN DefaultCfg ELSE h[LastBefore(h, k, "configure")].cfg
+CfgAt(h, k) == IF h[k].a = "draw" /\ h[k].has THEN h[k].cfg ELSE ConfiguredAt(h, k)      \* an explicit per-draw config wins
+RegAt(h, k) == IF LastBefore(h, k, "register") = 0 THEN DefaultReg ELSE h[LastBefore(h, k, "register")].kind
+TypesReg(s, kind) == IF kind = "int" THEN ("Reg" :> ScalarT("regint")) @@ Types(s) ELSE Types(s)
+HistDocViol(s, h, k, doc) == DocViolT(TypesReg(s, RegAt(h, k)), s, CfgAt(h, k), [root |-> h[k].root, field |-> h[k].field], doc)
 
 (* ------------------------------ the family ----------------------------- *)
 Bases == <<"Int", "Float", "String", "Boolean", "ID", "Color", "Date", "Long", "Reg", "Unreg", "Inner", "Outer">>
